@@ -445,6 +445,14 @@ def gen_file_case(rng):
         else:
             nn, cc = sounding.pop(rng.randrange(len(sounding)))
             ops.append(["off", tok(nn), tok(cc)])
+    if rng.random() < 0.25:
+        # the edge of the domain: the piece ends with the release of note 0 on channel 0 — the very message write() appends as
+        # padding — right before write(), or with some time after it
+        ops.append(["on", tok(0), tok(rng.randint(1, 127)), tok(0)])
+        ops.append(["tick", rng.choice([1, 7, 480])])
+        ops.append(["off", tok(0), tok(0)])
+        if rng.random() < 0.5:
+            return ops
     if rng.random() < 0.5:
         ops.append(["tick", rng.choice([0, 1, 480, 1920])])
     return ops
